@@ -193,7 +193,15 @@ pub enum Op {
     Remove { m: u8, k: KeySel },
     RemoveEntry { m: u8, k: KeySel },
     Clear { m: u8 },
-    Extend { m: u8, items: Vec<(u32, u32)>, by_ref: bool },
+    /// `hint`: what the iterator claims in size_hint(): 0 honest, 1 (0, None), 2 half,
+    /// 3 (usize::MAX, None), 4 twice as many plus 7 (fault kind "lying size hint")
+    Extend {
+        m: u8,
+        items: Vec<(u32, u32)>,
+        by_ref: bool,
+        #[serde(default)]
+        hint: u8,
+    },
     FromIter { m: u8, items: Vec<(u32, u32)> },
     IterMutWrite { m: u8, mask: u64, pct: u8, p: u32, values_mut: bool },
     // ---- map: handles
@@ -238,7 +246,13 @@ pub enum Op {
     SDrain { s: u8, consume: Consume },
     SDrainFilter { s: u8, pred: Pred, consume: Consume },
     SIntoIter { s: u8, consume: Consume, new_cap: usize },
-    SExtend { s: u8, items: Vec<u32>, by_ref: bool },
+    SExtend {
+        s: u8,
+        items: Vec<u32>,
+        by_ref: bool,
+        #[serde(default)]
+        hint: u8,
+    },
     SFromIter { s: u8, items: Vec<u32> },
     SClear { s: u8 },
     SReserve { s: u8, n: Arg },
